@@ -24,7 +24,7 @@
                            Counter() of a collection: SPeek) with the clock readings taken inside
      erase ts sch          the schedule without the steps of the collections *)
 From Coq Require Import List ZArith Bool Lia.
-From Verif Require Import C09.Model C09.Spec C09.Proofs C09.LimitRange C09.Registry C09.RegistryProofs.
+From Verif Require Import C09.Model C09.Spec C09.Proofs C09.ProofsAudit C09.LimitRange C09.Registry C09.RegistryProofs.
 Import ListNotations.
 Open Scope Z_scope.
 
@@ -81,6 +81,32 @@ Example C09_cut_window_not_bounded :
   count (in_right 4 2) (entries_of k (run_map (final_map [] h1) h2)) = 4 /\
   map s_lim (entries_of k (run_map (final_map [] h1) h2)) = [3; 3; 3; 3].
 Proof. vm_compute. repeat split. Qed.
+
+(* Sharper side condition: only the ONE grid window that contains the end of the window left
+   open at the change is excluded -- windows that end at or before it lie inside the old
+   window (no reset happens there, the counter counts every request that proceeded), windows
+   that begin at or after it are on the new grid.  [good_window_tight] is exactly the negation
+   of the situation of [C09_cut_window_not_bounded]: k*W < B < (k+1)*W with B off the W-grid. *)
+Theorem C09_grid_bound_after_resize_tight : forall h1 h2 k W s1,
+  0 < W -> key_valid k = true ->
+  get (final_map [] h1) k = Some s1 -> wW (swd s1) = W ->
+  const_window W (project k h2) -> mono (map sev_now (project k h2)) ->
+  bounded_right_tight W (wend s1) (entries_of k (run_map (final_map [] h1) h2)).
+Proof. exact map_grid_bound_after_resize_tight. Qed.
+Print Assumptions C09_grid_bound_after_resize_tight.
+
+Theorem C09_good_window_tight_exact : forall W B k, 0 < W ->
+  good_window_tight W B k <-> ~ (~ (W | B) /\ k * W < B < (k + 1) * W).
+Proof.
+  intros W B k HW. unfold good_window_tight, good_window. split.
+  - intros [[D|L]|R] [ND I]; [contradiction | lia | lia].
+  - intros H. destruct (Z.le_gt_cases B (k * W)) as [L|G]; [left; right; exact L|].
+    destruct (Z.le_gt_cases ((k + 1) * W) B) as [R|G2]; [right; exact R|].
+    destruct (Z.eq_dec (B mod W) 0) as [D|ND].
+    + left. left. apply Z.mod_divide; [lia | exact D].
+    + exfalso. apply H. split; [|lia]. intros D. apply ND. apply Z.mod_divide; [lia | exact D].
+Qed.
+Print Assumptions C09_good_window_tight_exact.
 
 (* The left-closed half does not hold for this code (requests at 1, 3, 4, 4 with
    window 3 and limit 2: three proceed in [3,6)); not a defect, the text leaves
@@ -149,6 +175,161 @@ Theorem C09_rejected_only_when_used_up : forall h k W pre e post,
 Proof. intros. eapply map_rejected_used_up; eassumption. Qed.
 Print Assumptions C09_rejected_only_when_used_up.
 
+(* the same after a window-size change, for rejections after the window left open at the
+   change has ended (rejections inside that window are decided by its counter, which also
+   counts requests from before the change: not covered) *)
+Theorem C09_rejected_only_when_used_up_after_resize : forall h1 h2 k W s1 pre e post,
+  0 < W -> key_valid k = true ->
+  get (final_map [] h1) k = Some s1 -> wW (swd s1) = W ->
+  const_window W (project k h2) -> mono_from 0 (map sev_now (project k h2)) ->
+  entries_of k (run_map (final_map [] h1) h2) = pre ++ e :: post ->
+  s_verdict e = Block -> wend s1 < s_now e ->
+  exists j, in_closed W j (s_now e) = true /\ s_lim e <= count (in_closed W j) pre.
+Proof. exact map_rejected_used_up_after_resize. Qed.
+Print Assumptions C09_rejected_only_when_used_up_after_resize.
+
+(* ------------------------------------------------------------------ *)
+(** One limiter on its own: the same two statements over the lock regions of a single
+    singleRateLimitState, each with its own clock reading (a Counter() region of a collection
+    reads the clock per limiter; the store-level [APeek] gives all keys one instant). *)
+Theorem C09_single_grid_bound : forall h W,
+  0 < W -> const_window W h -> mono (map sev_now h) ->
+  bounded_left W 0 (run_single None h) \/ bounded_right W 0 (run_single None h).
+Proof. intros. right. apply single_bounded_fresh; assumption. Qed.
+Print Assumptions C09_single_grid_bound.
+
+Theorem C09_single_rejected_only_when_used_up : forall h W pre e post,
+  0 < W -> const_window W h -> mono_from 0 (map sev_now h) ->
+  run_single None h = pre ++ e :: post -> s_verdict e = Block -> 0 < s_now e ->
+  exists j, in_closed W j (s_now e) = true /\ s_lim e <= count (in_closed W j) pre.
+Proof.
+  intros h W pre e post HW HC HM HR HV HB.
+  exact (single_exact W 0 HW h None [] 0 (conj eq_refl eq_refl) (Z.le_refl 0) HC HM pre e post HR HV HB).
+Qed.
+Print Assumptions C09_single_rejected_only_when_used_up.
+
+(* ------------------------------------------------------------------ *)
+(** F-C09c (open): the limit in force is ceil((allowed + spill-over) * ratio) also for a
+    request whose window data has spill-over DISABLED -- the amount accumulated while it was
+    enabled stays in force (and is no longer updated).  So "at most the allowed number
+    (scaled, rounded up)" and "rejected only if the share is used up", read with the nominal
+    limit of the request, fail once spill-over was enabled earlier for the key; they hold for
+    every request up to which no request of the key had spill-over enabled. *)
+
+Theorem C09_judged_entries : forall h k,
+  key_valid k = true -> map snd (judged k h) = entries_of k (run_map [] h).
+Proof. exact judged_entries. Qed.
+Print Assumptions C09_judged_entries.
+
+Definition C09_allowed_bound_full : Prop :=
+  forall h k W, 0 < W -> key_valid k = true ->
+    const_window W (project k h) -> mono (map sev_now (project k h)) ->
+    nominal_left (fun _ => True) W (judged k h) \/ nominal_right (fun _ => True) W (judged k h).
+
+(* spill-over on with allowed 5: one request at 1, one at 25 (4 unused requests carried over);
+   then the configuration allowed 0, spill-over off: four requests proceed at 35 *)
+Definition sp_key : key := {| kLimiter := [65]; kGrouped := false; kGroup := [] |}.
+Definition sp_on : wdata := {| wW := 10; wAllowed := 5; wParts := scale; wSpillOn := true; wRenew := 0 |}.
+Definition sp_off : wdata := {| wW := 10; wAllowed := 0; wParts := scale; wSpillOn := false; wRenew := 0 |}.
+Definition sp_hist : list (Z * action) :=
+  [(1, AInc sp_key sp_on); (25, AInc sp_key sp_on); (35, AInc sp_key sp_off); (35, AInc sp_key sp_off)].
+
+Theorem C09_allowed_bound_full_refuted : ~ C09_allowed_bound_full.
+Proof.
+  intros H.
+  destruct (H sp_hist sp_key 10 ltac:(lia) eq_refl ltac:(repeat constructor) ltac:(cbn; lia)) as [HB|HB];
+    specialize (HB [(sp_on, {| s_now := 1; s_verdict := Proceed; s_lim := 5 |});
+                    (sp_on, {| s_now := 25; s_verdict := Proceed; s_lim := 9 |})]
+                   sp_off {| s_now := 35; s_verdict := Proceed; s_lim := 4 |}
+                   [(sp_off, {| s_now := 35; s_verdict := Proceed; s_lim := 4 |})] 3
+                   eq_refl eq_refl eq_refl I eq_refl);
+    vm_compute in HB; apply HB; reflexivity.
+Qed.
+Print Assumptions C09_allowed_bound_full_refuted.
+
+(* side condition (decidable, [spill_freeb]; = the monitor's classifier): no request of the key
+   up to and including this one had spill-over enabled.  Allowed count and ratio may change
+   from request to request: each request is held to the nominal limit of its own data. *)
+Theorem C09_allowed_bound_holds_outside_stale_spillover : forall h k W,
+  0 < W -> key_valid k = true ->
+  const_window W (project k h) -> mono (map sev_now (project k h)) ->
+  nominal_left spill_free W (judged k h) \/ nominal_right spill_free W (judged k h).
+Proof. intros. right. apply map_nominal_right; assumption. Qed.
+Print Assumptions C09_allowed_bound_holds_outside_stale_spillover.
+
+Definition C09_rejected_nominal_full : Prop :=
+  forall h k W, 0 < W -> key_valid k = true ->
+    const_window W (project k h) -> mono_from 0 (map sev_now (project k h)) ->
+    nominal_rejections (fun _ => True) W (judged k h).
+
+(* spill-over on, allowed 2 at 150 %: three requests proceed at 1; the roll-over at 15 makes
+   the spill-over amount -1; then allowed 2 at 100 %, spill-over off: the second request at 25
+   is rejected with one of two used *)
+Definition sn_on : wdata :=
+  {| wW := 10; wAllowed := 2; wParts := 1500000000; wSpillOn := true; wRenew := 0 |}.
+Definition sn_off : wdata := {| wW := 10; wAllowed := 2; wParts := scale; wSpillOn := false; wRenew := 0 |}.
+Definition sn_hist : list (Z * action) :=
+  [(1, AInc sp_key sn_on); (1, AInc sp_key sn_on); (1, AInc sp_key sn_on); (15, AInc sp_key sn_on);
+   (25, AInc sp_key sn_off); (25, AInc sp_key sn_off)].
+
+Theorem C09_rejected_nominal_full_refuted : ~ C09_rejected_nominal_full.
+Proof.
+  intros H.
+  destruct (H sn_hist sp_key 10 ltac:(lia) eq_refl ltac:(repeat constructor) ltac:(cbn; lia)
+              [(sn_on, {| s_now := 1; s_verdict := Proceed; s_lim := 3 |});
+               (sn_on, {| s_now := 1; s_verdict := Proceed; s_lim := 3 |});
+               (sn_on, {| s_now := 1; s_verdict := Proceed; s_lim := 3 |});
+               (sn_on, {| s_now := 15; s_verdict := Proceed; s_lim := 2 |});
+               (sn_off, {| s_now := 25; s_verdict := Proceed; s_lim := 1 |})]
+              sn_off {| s_now := 25; s_verdict := Block; s_lim := 1 |} []
+              eq_refl eq_refl ltac:(cbn; lia) eq_refl I) as (j & Hj & Hc).
+  unfold in_closed in Hj. cbn [s_now] in Hj. apply andb_prop in Hj. destruct Hj as [H1 H2].
+  apply Z.leb_le in H1. apply Z.leb_le in H2. assert (j = 2) by lia. subst j.
+  vm_compute in Hc. apply Hc. reflexivity.
+Qed.
+Print Assumptions C09_rejected_nominal_full_refuted.
+
+Theorem C09_rejected_nominal_holds_outside_stale_spillover : forall h k W,
+  0 < W -> key_valid k = true ->
+  const_window W (project k h) -> mono_from 0 (map sev_now (project k h)) ->
+  nominal_rejections spill_free W (judged k h).
+Proof. exact map_nominal_rejections. Qed.
+Print Assumptions C09_rejected_nominal_holds_outside_stale_spillover.
+
+(* non-vacuity of the side condition: the first three requests of the refutation's history
+   satisfy nothing (spill-over on); the example history of the end of this file satisfies it
+   throughout *)
+Theorem C09_spill_free_decidable : forall l, spill_freeb l = true <-> spill_free l.
+Proof. exact spill_free_iff. Qed.
+Print Assumptions C09_spill_free_decidable.
+
+(* non-vacuity of the statements of this part and of the resize / single-limiter ones: a key
+   whose allowed count changes from request to request (2, then 1) without spill-over: the side
+   condition holds for every request, there are rejections and a roll-over; and a size change
+   10 -> 4 at instant 9 with a rejection after the old window (0,10] has ended *)
+Example C09_example_audit :
+  let k := sp_key in
+  let wd a := {| wW := 10; wAllowed := a; wParts := scale; wSpillOn := false; wRenew := 0 |} in
+  let h := [(1, AInc k (wd 2)); (2, AInc k (wd 2)); (3, AInc k (wd 2)); (11, AInc k (wd 1));
+            (12, AInc k (wd 1)); (12, AInc k (wd 2))] in
+  spill_freeb (judged k h) = true /\ const_window 10 (project k h) /\
+  mono_from 0 (map sev_now (project k h)) /\
+  map (fun we => (nominal (fst we), s_now (snd we), s_verdict (snd we))) (judged k h) =
+    [(2, 1, Proceed); (2, 2, Proceed); (2, 3, Block); (1, 11, Proceed); (1, 12, Block);
+     (2, 12, Proceed)] /\
+  run_single None (project k h) = map snd (judged k h) /\
+  let w4 := {| wW := 4; wAllowed := 1; wParts := scale; wSpillOn := false; wRenew := 0 |} in
+  let h1 := [(1, AInc k (wd 3)); (9, AInc k w4)] in
+  let h2 := [(13, AInc k w4); (14, AInc k w4)] in
+  option_map (fun s => (wend s, wW (swd s))) (get (final_map [] h1) k) = Some (10, 4) /\
+  map (fun e => (s_now e, s_verdict e, s_lim e)) (entries_of k (run_map (final_map [] h1) h2)) =
+    [(13, Proceed, 1); (14, Block, 1)].
+Proof.
+  cbn zeta. split; [vm_compute; reflexivity|]. split; [repeat constructor|].
+  split; [cbn; lia|]. split; [vm_compute; reflexivity|]. split; [vm_compute; reflexivity|].
+  split; vm_compute; reflexivity.
+Qed.
+
 (* ------------------------------------------------------------------ *)
 (** The limit is the allowed count scaled by the allocation percentage, rounded
     up.  (Patched code; bound of the reflection in the statement: percentages
@@ -208,6 +389,141 @@ Theorem C09_plugin_default_no_count : forall m now r hs o,
   plugin_pre r hs = PreDone o -> plugin_step m now r hs = (m, o).
 Proof. exact plugin_done_no_effect. Qed.
 Print Assumptions C09_plugin_default_no_count.
+
+(* a request that reaches a counter (valid key, non-zero window) gets NoOp exactly when it is
+   counted, and otherwise the early response with the configured status -- "the remaining ones
+   get the configured rejection status" *)
+Theorem C09_plugin_outcome : forall m now r hs k rb,
+  plugin_pre r hs = PreLimit k rb -> key_valid k = true -> wW (wd_of_remedy r rb) <> 0 ->
+  let v := snd (try_inc now (wd_of_remedy r rb) (or_init (get m k))) in
+  (v = Proceed /\ snd (plugin_step m now r hs) = PNoOp) \/
+  (v = Block /\ snd (plugin_step m now r hs) = PEarly (status_of r)).
+Proof. exact plugin_outcome. Qed.
+Print Assumptions C09_plugin_outcome.
+
+(* the suite "plugin" runs exactly the plugin histories the theorems below speak about *)
+Theorem C09_plugin_suite_is_history : forall base rs reqs,
+  run_plugin_reqs base rs [] reqs =
+  option_map (fun h => map (fun e => code_of_pout (p_out e)) (run_plugin_hist [] h))
+             (pevs_of_reqs base rs reqs).
+Proof. intros. apply run_plugin_reqs_hist. Qed.
+Print Assumptions C09_plugin_suite_is_history.
+
+(* Plugin level, composed: any history of OnRequest calls (any remedies, configuration
+   versions, headers) and metrics collections from the empty state.  For a counter key k whose
+   requests all hand the same window data wd to the limiter (spill-over off): per aligned
+   window at most the nominal limit of NoOp answers for k (disjunction of closures; the
+   right-closed half holds), and every other request of k gets the early response with the
+   configured status of its remedy. *)
+Theorem C09_plugin_window_bound : forall h k wd,
+  0 < wW wd -> wSpillOn wd = false -> key_valid k = true ->
+  plugin_requests_use k wd h -> mono (map pev_now (filter (concerns k) h)) ->
+  let tr := pentries_of k (run_plugin_hist [] h) in
+  ((forall j, pcount (in_left (wW wd) j) tr <= nominal wd) \/
+   (forall j, pcount (in_right (wW wd) j) tr <= nominal wd)) /\
+  Forall (fun e => p_out e = PNoOp \/ p_out e = PEarly (p_status e)) tr.
+Proof.
+  intros h k wd HW Hs Hk HU HM tr.
+  destruct (plugin_window_bound h k wd HW Hs Hk HU HM) as [HB HF]. split; [right; exact HB | exact HF].
+Qed.
+Print Assumptions C09_plugin_window_bound.
+
+(* ... for one group of one remedy: remedy r (one configuration version: every request under
+   its name is a request of r), spill-over off, group header value v listed with ANY percentage
+   (float64 bits pct); requests whose header value differs from v only in surrounding white
+   space are excluded (they share v's counter but get the default allocation).  Per aligned
+   window at most [limit_code allowed (pct/100)] requests of (r, v) get NoOp -- the code's limit
+   function, equal to the exact rounded-up share for the percentages of C09_limit_is_ceiling
+   (two decimals, 0..100 %) -- and all others of (r, v) get the early response with the
+   configured status. *)
+Theorem C09_plugin_group_share_any : forall h r g v pct,
+  rGqa r = Some g -> find_alloc (gGroups g) v = Some pct ->
+  0 < rWsec r -> rSpillOn r = false -> rName r <> [] ->
+  let k := {| kLimiter := rName r; kGrouped := true;
+              kGroup := lower (gHeader g) ++ [58] ++ trim v |} in
+  let W := rWsec r * 1000000000 in
+  Forall (fun e => match e with
+                   | PReq _ r' hs => rName r' = rName r ->
+                                     r' = r /\ (trim (header hs (gHeader g)) = trim v ->
+                                                header hs (gHeader g) = v)
+                   | PCol _ => True
+                   end) h ->
+  mono (map pev_now (filter (concerns k) h)) ->
+  let tr := pentries_of k (run_plugin_hist [] h) in
+  let L := limit_code (rAllowed r) (ratio_of_pct_bits pct) in
+  ((forall j, pcount (in_left W j) tr <= L) \/ (forall j, pcount (in_right W j) tr <= L)) /\
+  Forall (fun e => p_out e = PNoOp \/ p_out e = PEarly (p_status e)) tr.
+Proof.
+  intros h r g v pct Hg Hf Hw Hso Hn k W HF HM tr L.
+  set (wd := wd_of_remedy r (ratio_of_pct_bits pct)).
+  assert (Hk : key_valid k = true).
+  { unfold key_valid, k. cbn [kLimiter kGrouped kGroup].
+    destruct (rName r); [contradiction|]. destruct (lower (gHeader g)); reflexivity. }
+  change L with (nominal wd). change W with (wW wd).
+  apply C09_plugin_window_bound; try assumption.
+  - cbn. lia.
+  - apply one_version_uses; assumption.
+Qed.
+Print Assumptions C09_plugin_group_share_any.
+
+(* ... and with the number of the statement, for a percentage hp/100 with two decimals in
+   0..100 %: at most ceil(allowed * hp / 10000) NoOp answers per aligned window *)
+Theorem C09_plugin_group_share : forall h r g v hp,
+  rGqa r = Some g -> find_alloc (gGroups g) v = Some (pct_bits_of_hundredths hp) ->
+  0 <= hp <= 10000 -> 0 <= rAllowed r <= max_i64 -> 0 < rWsec r -> rSpillOn r = false ->
+  rName r <> [] ->
+  let k := {| kLimiter := rName r; kGrouped := true;
+              kGroup := lower (gHeader g) ++ [58] ++ trim v |} in
+  let W := rWsec r * 1000000000 in
+  Forall (fun e => match e with
+                   | PReq _ r' hs => rName r' = rName r ->
+                                     r' = r /\ (trim (header hs (gHeader g)) = trim v ->
+                                                header hs (gHeader g) = v)
+                   | PCol _ => True
+                   end) h ->
+  mono (map pev_now (filter (concerns k) h)) ->
+  let tr := pentries_of k (run_plugin_hist [] h) in
+  ((forall j, pcount (in_left W j) tr <= limit_exact (rAllowed r) hp) \/
+   (forall j, pcount (in_right W j) tr <= limit_exact (rAllowed r) hp)) /\
+  Forall (fun e => p_out e = PNoOp \/ p_out e = PEarly (p_status e)) tr.
+Proof.
+  intros h r g v hp Hg Hf Hhp Ha Hw Hso Hn k W HF HM tr.
+  rewrite <- (C09_limit_is_ceiling (rAllowed r) hp Ha Hhp).
+  exact (C09_plugin_group_share_any h r g v _ Hg Hf Hw Hso Hn HF HM).
+Qed.
+Print Assumptions C09_plugin_group_share.
+
+(* non-vacuity: remedy "r" (allowed 100, window 1 s, status unset) with X-G: "a" listed at 7 %;
+   nine requests of group a and one of an unlisted group in one window, a collection in
+   between: seven NoOp, then 429; the hypotheses of C09_plugin_group_share hold *)
+Example C09_example_plugin_history :
+  let g := {| gHeader := [88; 45; 71];
+              gGroups := [{| aVal := [97]; aPct := pct_bits_of_hundredths 700 |}];
+              gDefault := s_block; gDefPct := 0 |} in
+  let r := {| rName := [114]; rAllowed := 100; rWsec := 1; rStatus := 0; rSpillOn := false;
+              rRenew := 0; rGqa := Some g |} in
+  let a := PReq 5 r [([88; 45; 71], [97])] in
+  let h := [a; a; a; PCol 6; a; a; PReq 7 r [([88; 45; 71], [98])]; a; a; a; a] in
+  let k := {| kLimiter := [114]; kGrouped := true; kGroup := lower [88; 45; 71] ++ [58] ++ trim [97] |} in
+  Forall (fun e => match e with
+                   | PReq _ r' hs => rName r' = rName r ->
+                                     r' = r /\ (trim (header hs (gHeader g)) = trim [97] ->
+                                                header hs (gHeader g) = [97])
+                   | PCol _ => True
+                   end) h /\
+  limit_exact 100 700 = 7 /\
+  map (fun e => (p_now e, code_of_pout (p_out e))) (pentries_of k (run_plugin_hist [] h)) =
+    [(5, 0); (5, 0); (5, 0); (5, 0); (5, 0); (5, 0); (5, 0); (5, 429); (5, 429)] /\
+  map (fun e => code_of_pout (p_out e)) (run_plugin_hist [] h) = [0; 0; 0; 0; 0; 429; 0; 0; 429; 429].
+Proof.
+  cbn zeta. split.
+  - repeat (apply Forall_cons;
+            [first [exact I
+                   | intros _; split; [reflexivity|]; vm_compute; intros E;
+                     first [reflexivity | discriminate E]]|]).
+    apply Forall_nil.
+  - split; [reflexivity|]. split; vm_compute; reflexivity.
+Qed.
 
 (* ------------------------------------------------------------------ *)
 (** Non-vacuity: a two-key history with a roll-over and rejections satisfies the
@@ -379,6 +695,54 @@ Proof.
   eapply run_head_not_releasing; [exact HR|]. apply initial_not_releasing. exact Hi.
 Qed.
 Print Assumptions C09_registry_no_deadlock.
+
+(* ------------------------------------------------------------------ *)
+(** F-C09b (fixed by patches/C09/fix-F-C09b.patch).  getLimiterState registers a new limiter
+    state and releases the registry mutex before that limiter's TryToIncrement stores the
+    window data; a metrics collection in between visits a state whose stored window size is 0.
+    The unpatched Counter() divides by it (the quota_used gauge callback panics, whatever the
+    configured window sizes are); the patched one returns the counter of such a state. *)
+
+Definition nonzero_sizes (ts : list thread) : Prop :=
+  Forall (fun t => match t with TReq _ wd _ => wW wd <> 0 | TCol _ => True end) ts.
+
+(* every collection that ends, ends with counters -- for every interleaving, although every
+   request carries a non-zero window size *)
+Definition collections_complete (v : variant) : Prop :=
+  forall ts sch c' i out,
+    forallb initial ts = true -> nonzero_sizes ts -> run v (init_config ts) sch = Some c' ->
+    nth_error (c_threads c') i = Some (TCol (CDone out)) -> out <> None.
+
+(* the patched code: for all window sizes, zero included *)
+Theorem C09_collections_complete : forall ts sch c' i out,
+  forallb initial ts = true -> run Head (init_config ts) sch = Some c' ->
+  nth_error (c_threads c') i = Some (TCol (CDone out)) -> out <> None.
+Proof. exact head_collections_complete. Qed.
+Print Assumptions C09_collections_complete.
+
+Corollary C09_collections_complete_head : collections_complete Head.
+Proof. intros ts sch c' i out Hi _. exact (head_collections_complete ts sch c' i out Hi). Qed.
+Print Assumptions C09_collections_complete_head.
+
+(* the unpatched Counter(): one request (window 10) that has registered its limiter, one
+   collection *)
+Theorem C09_collections_complete_unfixed_refuted : ~ collections_complete FreshDivides.
+Proof.
+  intros H. destruct fresh_divides_witness as (c' & HR & E).
+  refine (H fwit_threads fwit_schedule c' 1%nat None eq_refl _ HR E eq_refl).
+  repeat constructor; cbn; lia.
+Qed.
+Print Assumptions C09_collections_complete_unfixed_refuted.
+
+(* non-vacuity: on the patched machine the same steps are a schedule; the collection reports
+   0 for the registered key and the request then proceeds *)
+Example C09_collections_example :
+  forallb initial fwit_threads = true /\ nonzero_sizes fwit_threads /\
+  exists c', run Head (init_config fwit_threads) fwit_schedule_head = Some c' /\
+             c_threads c' = [TReq wit_key wit_wd (RDone Proceed); TCol (CDone (Some [(wit_key, 0)]))].
+Proof.
+  split; [reflexivity|]. split; [repeat constructor; cbn; lia|]. exact fresh_head_witness.
+Qed.
 
 (* non-vacuity: the schedule of the refutation is not a schedule of the HEAD machine (the
    request waits for the registry); when the collection is over the request is counted on the
